@@ -8,6 +8,9 @@ pub mod wrap;
 pub mod macros;
 pub mod data;
 pub mod treeops;
+pub mod walk;
+pub mod hostile;
+pub mod absprop;
 
 pub struct Prop {
     pub id: &'static str,
@@ -32,6 +35,9 @@ pub fn registry() -> Vec<Prop> {
     v.extend(macros::props());
     v.extend(data::props());
     v.extend(treeops::props());
+    v.extend(walk::props());
+    v.extend(hostile::props());
+    v.extend(absprop::props());
     v
 }
 
